@@ -79,3 +79,9 @@ Definition handler_model (c : handler_case) : handler_obs :=
   (match h with HApproved => 0 | HPanic => 3 | _ => 2 end,
    match r with CUnknown u => Some u | _ => None end, obs_of c1).
 Definition check_handler (c : handler_case) : bool := beq (handler_model c) (snd c).
+
+(** memo case: (the delegate's constant answer, operations, observed answers to the requests) *)
+Definition memo_case : Type := bool * list mop * list bool.
+Definition memo_model (c : memo_case) : list bool :=
+  let '(d, ops, _) := c in snd (mrun (fun _ => d) [] ops).
+Definition check_memo (c : memo_case) : bool := beq (memo_model c) (snd c).
